@@ -19,12 +19,13 @@
  *   body:  -  |  h<hex>  |  r<len>.<seed>  (pseudo-random)
  *   sched: comma list; a number n = the next n body bytes arrive (the first entry is what is
  *          queued when create_env runs), then gw_write_refill_wb() runs with the write queue
- *          drained; "e" = the chunked request body is complete (gw_handle_subrequest() step)
+ *          drained; "e" = the chunked request body is complete (gw_handle_subrequest() step);
+ *          a first entry "c<n>" = n bytes arrive and reqbody_length becomes n before create_env
  *   everything after "P" is for the model only (the parsed request, obtained with op "parse")
  * output: <parsed request> | <result>
  *   parsed request:  err <status>
  *                  | m=<hex> v=<0|1> to=<hex> host=<hex|~> len=<n> hdrs=<k:v,...|->
- *   result:  nomatch | st=<status> | env <rc> <k=v,...> | cgi <n> <hex>
+ *   result:  nomatch | st=<status> | env <k=v,...> rc=<n> | cgi <n> <hex>
  *          | ok reqlen=<n> in=<n> pend=<n> out=<hex>
  * op "parse <parseopts> <flags> <head>" prints only the parsed request.
  */
@@ -513,7 +514,14 @@ int main(void) {
         drain_err = 0;
         char *save = NULL;
         char *step = strtok_r(ltv_tok[18], ",", &save);
-        if (step && step[0] != 'e') { body_arrive((size_t)atol(step), flags & F_TEMPFILES); step = strtok_r(NULL, ",", &save); }
+        if (step && step[0] == 'c') {
+            /* request body received completely before the backend is started (not streaming):
+             * h1_chunked() / h2_recv_data() set reqbody_length at the end of the body */
+            body_arrive((size_t)atol(step + 1), flags & F_TEMPFILES);
+            r->reqbody_length = r->reqbody_queue.bytes_in;
+            step = strtok_r(NULL, ",", &save);
+        }
+        else if (step && step[0] != 'e') { body_arrive((size_t)atol(step), flags & F_TEMPFILES); step = strtok_r(NULL, ",", &save); }
         rc = hctx->create_env(hctx);
         if (HANDLER_GO_ON != rc) {
             printf("st=%d\n", r->http_status);
